@@ -816,5 +816,486 @@ theorem Inv.new (attr : Name) (ov auto : Bool) (ha : AttrOK attr) : Inv (HM.new 
   ⟨ha, (fun m o h => by cases h), (fun e h => by cases h), (fun i h => by cases h), List.nodup_nil, List.nodup_nil,
     List.nodup_nil⟩
 
+
+/-! ### constants of a machine -/
+
+structure SameConsts (hm hm' : HM) : Prop where
+  attr : hm'.attr = hm.attr
+  override : hm'.override = hm.override
+  auto : hm'.auto = hm.auto
+
+theorem SameConsts.refl (hm : HM) : SameConsts hm hm := ⟨rfl, rfl, rfl⟩
+theorem SameConsts.trans {a b c : HM} (h1 : SameConsts a b) (h2 : SameConsts b c) : SameConsts a c :=
+  ⟨h2.attr.trans h1.attr, h2.override.trans h1.override, h2.auto.trans h1.auto⟩
+
+theorem addTransition_consts (hm : HM) (e : Name) (src : Src) (dst : Dst) (pass : Bool) :
+    SameConsts hm (addTransition hm e src dst pass).1 := by
+  by_cases hne : e = hm.attr
+  · subst hne; rw [addTransition_attr_raises]; exact SameConsts.refl _
+  · have sh := (addTransition_shape hm e src dst pass hne).2.1
+    exact ⟨sh.attr, sh.override, sh.auto⟩
+
+theorem addState_consts (hm : HM) (s : Name) : SameConsts hm (addState hm s).1 := by
+  obtain ⟨_, _, a, b, c⟩ := addState_states hm s
+  exact ⟨a, c, b⟩
+
+theorem setInitial_consts (hm : HM) (s : Name) : SameConsts hm (setInitial hm s).1 := by
+  unfold Helpers.setInitial
+  split
+  · exact ⟨rfl, rfl, rfl⟩
+  · have := addState_consts hm s
+    cases hr : Helpers.addState hm s with
+    | mk h' err =>
+      rw [hr] at this
+      cases err with
+      | none => exact ⟨this.attr, this.override, this.auto⟩
+      | some e => exact this
+
+theorem addModel_consts (hm : HM) (m : Nat) (o : Obj) : SameConsts hm (addModel hm m o).1 := by
+  unfold Helpers.addModel
+  split
+  · exact SameConsts.refl _
+  · split
+    · exact SameConsts.refl _
+    · split
+      · exact ⟨rfl, rfl, rfl⟩
+      · exact SameConsts.refl _
+
+theorem removeTransition_consts (hm : HM) (e : Name) (src dst : Option Name) :
+    SameConsts hm (removeTransition hm e src dst).1 := by
+  unfold Helpers.removeTransition
+  split
+  · exact SameConsts.refl _
+  · split
+    · simp only; split <;> exact ⟨rfl, rfl, rfl⟩
+    · exact ⟨rfl, rfl, rfl⟩
+
+theorem fire_consts (hm : HM) (m : Nat) (e : Name) : SameConsts hm (fire hm m e).1 := by
+  unfold Helpers.fire
+  repeat' split
+  all_goals first | exact SameConsts.refl _ | exact ⟨rfl, rfl, rfl⟩
+
+theorem applyOp_consts (hm : HM) (op : Op) : SameConsts hm (applyOp hm op).1 := by
+  cases op with
+  | setInitial s => exact setInitial_consts hm s
+  | addState s => exact addState_consts hm s
+  | addTransition e src dst pass => exact addTransition_consts hm e src dst pass
+  | removeTransition e src dst => exact removeTransition_consts hm e src dst
+  | addModel m o => exact addModel_consts hm m o
+  | fire m e => exact fire_consts hm m e
+
+theorem run_consts : ∀ (ops : List Op) (hm : HM), SameConsts hm (run hm ops)
+  | [], hm => SameConsts.refl hm
+  | op :: r, hm => (applyOp_consts hm op).trans (run_consts r _)
+
+
+/-! ### machines without `model_override`: every helper is there, nothing of the model's is touched -/
+
+/-- `getattr(model, name, None) is not None` -/
+def Bnd (o : Obj) (n : Name) : Prop := o.unbound n = false
+
+theorem Bnd.checkedAssign_other {o : Obj} {n' : Name} (h : Bnd o n') (n : Name) (b : Binding) :
+    Bnd (checkedAssign false o n b) n' := by
+  unfold Bnd at h ⊢
+  by_cases hn : n' = n
+  · subst hn
+    have : checkedAssign false o n' b = o := by unfold checkedAssign; simp [h]
+    rw [this]; exact h
+  · unfold Obj.unbound at h ⊢
+    rw [getattr_checkedAssign_ne _ _ _ _ _ hn]; exact h
+
+theorem Bnd.checkedAssign_self (o : Obj) (n : Name) (b : Binding) (hb : b ≠ .userNone) :
+    Bnd (checkedAssign false o n b) n := by
+  unfold Bnd
+  cases hu : o.unbound n with
+  | false =>
+    have : checkedAssign false o n b = o := by unfold checkedAssign; simp [hu]
+    rw [this]; exact hu
+  | true =>
+    unfold Obj.unbound
+    rw [getattr_checkedAssign_self]
+    simp only [hu, Bool.true_bne, Bool.not_false, if_true]
+    cases b <;> simp at hb ⊢
+
+theorem Bnd.setattr_ne {o : Obj} {n' : Name} (h : Bnd o n') (n : Name) (b : Binding) (hn : n' ≠ n) :
+    Bnd (o.setattr n b) n' := by
+  unfold Bnd Obj.unbound at h ⊢
+  rw [getattr_setattr_ne _ _ _ _ hn]; exact h
+
+theorem getattr_dropInst_ne (o : Obj) (e n : Name) (hn : n ≠ e) : (o.dropInst e).getattr n = o.getattr n := by
+  simp [Obj.getattr, Obj.dropInst, kget_kdel_ne _ _ _ hn]
+
+theorem Bnd.dropInst_ne {o : Obj} {n' : Name} (h : Bnd o n') (e : Name) (hn : n' ≠ e) : Bnd (o.dropInst e) n' := by
+  unfold Bnd Obj.unbound at h ⊢
+  rw [getattr_dropInst_ne _ _ _ hn]; exact h
+
+/-- "the model's own attributes are as the model defined them": same class, every non-None attribute
+the model defined (other than the state attribute) is still the very same object -/
+structure KeptFrom (attr : Name) (o0 o : Obj) : Prop where
+  cls : o.cls = o0.cls
+  user : ∀ n id, n ≠ attr → o0.getattr n = some (.user id) → o.getattr n = some (.user id)
+
+theorem KeptFrom.refl (attr : Name) (o : Obj) : KeptFrom attr o o := ⟨rfl, fun _ _ _ h => h⟩
+
+theorem KeptFrom.checkedAssign {attr : Name} {o0 o : Obj} (h : KeptFrom attr o0 o) (n : Name) (b : Binding) :
+    KeptFrom attr o0 (Helpers.checkedAssign false o n b) := by
+  refine ⟨by simpa using h.cls, ?_⟩
+  intro n' id hn h0
+  have h1 := h.user n' id hn h0
+  by_cases hnn : n' = n
+  · subst hnn
+    have : Helpers.checkedAssign false o n' b = o := by unfold Helpers.checkedAssign; simp [Obj.unbound, h1]
+    rw [this]; exact h1
+  · rw [getattr_checkedAssign_ne _ _ _ _ _ hnn]; exact h1
+
+theorem KeptFrom.setState {attr : Name} {o0 o : Obj} (h : KeptFrom attr o0 o) (b : Binding) :
+    KeptFrom attr o0 (o.setattr attr b) :=
+  ⟨h.cls, fun n id hn h0 => by rw [getattr_setattr_ne _ _ _ _ hn]; exact h.user n id hn h0⟩
+
+theorem KeptFrom.dropInst {attr : Name} {o0 o : Obj} (h : KeptFrom attr o0 o) (e : Name) (he : o0.getattr e = none) :
+    KeptFrom attr o0 (o.dropInst e) := by
+  refine ⟨h.cls, ?_⟩
+  intro n id hn h0
+  by_cases hne : n = e
+  · subst hne; rw [he] at h0; cases h0
+  · rw [getattr_dropInst_ne _ _ _ hne]; exact h.user n id hn h0
+
+/-- per registered model of a machine without `model_override`; `P m o0` says "`o0` is the object
+that was handed to `add_model` for `m`" -/
+structure FObj (P : Nat → Obj → Prop) (hm : HM) (m : Nat) (o : Obj) : Prop where
+  orig : ∃ o0, P m o0 ∧ KeptFrom hm.attr o0 o
+  isB : ∀ s ∈ hm.states, Bnd o (isName hm.attr s)
+  evB : ∀ e ∈ keys hm.events, Bnd o e
+  trB : Bnd o sTrigger
+
+def FInv (P : Nat → Obj → Prop) (hm : HM) : Prop := ∀ m o, (m, o) ∈ hm.objs → FObj P hm m o
+
+theorem FObj.addTrigger {P : Nat → Obj → Prop} {hm hm' : HM} {m : Nat} {o : Obj} (h : FObj P hm m o) (e : Name)
+    (ha : hm'.attr = hm.attr) (hs : hm'.states = hm.states)
+    (hk : ∀ e' ∈ keys hm'.events, e' ∈ keys hm.events ∨ e' = e) : FObj P hm' m (addTriggerToModel false e o) := by
+  unfold addTriggerToModel
+  refine ⟨?_, ?_, ?_, ?_⟩
+  · obtain ⟨o0, hp, hkf⟩ := h.orig
+    exact ⟨o0, hp, by rw [ha]; exact (hkf.checkedAssign _ _).checkedAssign _ _⟩
+  · intro s hs'; rw [ha]; rw [hs] at hs'
+    exact ((h.isB s hs').checkedAssign_other _ _).checkedAssign_other _ _
+  · intro e' he'
+    rcases hk e' he' with h1 | h1
+    · exact ((h.evB e' h1).checkedAssign_other _ _).checkedAssign_other _ _
+    · subst h1; exact (Bnd.checkedAssign_self o e' (.trigger e') (by simp)).checkedAssign_other _ _
+  · exact (h.trB.checkedAssign_other _ _).checkedAssign_other _ _
+
+theorem FObj.mono {P : Nat → Obj → Prop} {hm hm' : HM} {m : Nat} {o : Obj} (h : FObj P hm m o)
+    (ha : hm'.attr = hm.attr) (hs : hm'.states = hm.states) (hk : ∀ e' ∈ keys hm'.events, e' ∈ keys hm.events) :
+    FObj P hm' m o :=
+  ⟨by rw [ha]; exact h.orig, by rw [ha, hs]; exact h.isB, fun e he => h.evB e (hk e he), h.trB⟩
+
+theorem FInv.addTransition {P : Nat → Obj → Prop} {hm : HM} (h : FInv P hm) (hov : hm.override = false)
+    (e : Name) (src : Src) (dst : Dst) (pass : Bool) : FInv P (addTransition hm e src dst pass).1 := by
+  by_cases hne : e = hm.attr
+  · subst hne; rw [addTransition_attr_raises]; exact h
+  · have sh := (addTransition_shape hm e src dst pass hne).2.1
+    intro m o hmo
+    rw [sh.objs] at hmo
+    split at hmo
+    · rename_i hmem
+      exact (h m o hmo).mono sh.attr sh.states (by rw [sh.keysE]; simp [hmem])
+    · rename_i hmem
+      obtain ⟨o0, h0, rfl⟩ := mem_map_snd hmo
+      rw [hov]
+      exact (h m o0 h0).addTrigger e sh.attr sh.states (by
+        intro e' he'; rw [sh.keysE] at he'; simp only [hmem, if_false] at he'
+        rcases List.mem_append.mp he' with h1 | h1
+        · exact Or.inl h1
+        · exact Or.inr (by simpa using h1))
+
+theorem autoLoop_finv {P : Nat → Obj → Prop} (s : Name) : ∀ (l : List Name) (h : HM), h.override = false → FInv P h →
+    FInv P (autoLoop s l h).1
+  | [], h, _, hi => hi
+  | a :: r, h, hov, hi => by
+    unfold autoLoop
+    have h1 := hi.addTransition hov (toName h.attr a) (if a = s then .all else .one s) (.to a) true
+    have hc := addTransition_consts h (toName h.attr a) (if a = s then .all else .one s) (.to a) true
+    cases hr : Helpers.addTransition h (toName h.attr a) (if a = s then Src.all else Src.one s) (Dst.to a) true with
+    | mk h' err =>
+      rw [hr] at h1 hc
+      cases err with
+      | none => exact autoLoop_finv s r h' (hc.override.trans hov) h1
+      | some e => exact h1
+
+theorem FInv.addState {P : Nat → Obj → Prop} {hm : HM} (h : FInv P hm) (hov : hm.override = false) (s : Name) :
+    FInv P (addState hm s).1 := by
+  have hcore : FInv P (addStateCore hm s) := by
+    intro m o hmo
+    obtain ⟨o0, h0, rfl⟩ := mem_map_snd (f := addModelToState hm.override hm.attr s) hmo
+    have f0 := h m o0 h0
+    rw [hov]
+    unfold addModelToState
+    refine ⟨?_, ?_, ?_, ?_⟩
+    · obtain ⟨oo, hp, hkf⟩ := f0.orig
+      exact ⟨oo, hp, hkf.checkedAssign _ _⟩
+    · intro s' hs'
+      have hs'' : s' ∈ hm.states ∨ s' = s := by
+        simp only [Helpers.addStateCore] at hs'
+        split at hs'
+        · exact Or.inl hs'
+        · rcases List.mem_append.mp hs' with h1 | h1
+          · exact Or.inl h1
+          · exact Or.inr (by simpa using h1)
+      rcases hs'' with h1 | h1
+      · exact (f0.isB s' h1).checkedAssign_other _ _
+      · subst h1; exact Bnd.checkedAssign_self _ _ _ (by simp)
+    · intro e he; exact (f0.evB e he).checkedAssign_other _ _
+    · exact f0.trB.checkedAssign_other _ _
+  rw [addState_eq]; split
+  · exact autoLoop_finv s _ _ hov hcore
+  · exact hcore
+
+theorem FInv.setInitial {P : Nat → Obj → Prop} {hm : HM} (h : FInv P hm) (hov : hm.override = false) (s : Name) :
+    FInv P (setInitial hm s).1 := by
+  unfold Helpers.setInitial
+  by_cases hs : s ∈ hm.states
+  · simp only [hs, if_true]
+    intro m o hmo; exact (h m o hmo).mono rfl rfl (fun _ h => h)
+  · simp only [hs, if_false]
+    have hi := h.addState hov s
+    cases hr : Helpers.addState hm s with
+    | mk h' err =>
+      rw [hr] at hi
+      cases err with
+      | some e => exact hi
+      | none => intro m o hmo; exact (hi m o hmo).mono rfl rfl (fun _ h => h)
+
+theorem fold_addTrigger_bnd : ∀ (l : List (Name × List Tr)) (o : Obj) (n : Name),
+    (Bnd o n ∨ n ∈ keys l) → Bnd (l.foldl (fun o ev => addTriggerToModel false ev.1 o) o) n
+  | [], o, n, h => by
+    rcases h with h | h
+    · exact h
+    · cases h
+  | ev :: r, o, n, h => by
+    simp only [List.foldl_cons]
+    refine fold_addTrigger_bnd r _ n ?_
+    unfold addTriggerToModel
+    rcases h with h | h
+    · exact Or.inl ((h.checkedAssign_other _ _).checkedAssign_other _ _)
+    · simp only [keys, List.map_cons, List.mem_cons] at h
+      rcases h with h | h
+      · subst h; exact Or.inl ((Bnd.checkedAssign_self o ev.1 (.trigger ev.1) (by simp)).checkedAssign_other _ _)
+      · exact Or.inr h
+
+theorem fold_addModelToState_bnd (attr : Name) : ∀ (l : List Name) (o : Obj) (n : Name),
+    (Bnd o n ∨ ∃ s ∈ l, n = isName attr s) → Bnd (l.foldl (fun o s => addModelToState false attr s o) o) n
+  | [], o, n, h => by
+    rcases h with h | ⟨s, hs, _⟩
+    · exact h
+    · cases hs
+  | s :: r, o, n, h => by
+    simp only [List.foldl_cons]
+    refine fold_addModelToState_bnd attr r _ n ?_
+    unfold addModelToState
+    rcases h with h | ⟨s', hs', hn⟩
+    · exact Or.inl (h.checkedAssign_other _ _)
+    · rcases List.mem_cons.mp hs' with h1 | h1
+      · subst h1; subst hn; exact Or.inl (Bnd.checkedAssign_self _ _ _ (by simp))
+      · exact Or.inr ⟨s', h1, hn⟩
+
+theorem fold_addTrigger_kept {attr : Name} {o0 : Obj} : ∀ (l : List (Name × List Tr)) (o : Obj), KeptFrom attr o0 o →
+    KeptFrom attr o0 (l.foldl (fun o ev => addTriggerToModel false ev.1 o) o)
+  | [], _, h => h
+  | ev :: r, o, h => by
+    simp only [List.foldl_cons]
+    exact fold_addTrigger_kept r _ (by unfold addTriggerToModel; exact (h.checkedAssign _ _).checkedAssign _ _)
+
+theorem fold_addModelToState_kept {attr : Name} {o0 : Obj} : ∀ (l : List Name) (o : Obj), KeptFrom attr o0 o →
+    KeptFrom attr o0 (l.foldl (fun o s => addModelToState false attr s o) o)
+  | [], _, h => h
+  | s :: r, o, h => by
+    simp only [List.foldl_cons]
+    exact fold_addModelToState_kept r _ (by unfold addModelToState; exact h.checkedAssign _ _)
+
+theorem FInv.addModel {P : Nat → Obj → Prop} {hm : HM} (h : FInv P hm) (hov : hm.override = false)
+    (m : Nat) (o : Obj) (hp : P m o) : FInv P (addModel hm m o).1 := by
+  unfold Helpers.addModel
+  cases hi : hm.initial with
+  | none => exact h
+  | some i =>
+    simp only
+    cases hk : kget m hm.objs with
+    | some x => simpa using h
+    | none =>
+      simp only [Option.isSome_none, Bool.false_eq_true, if_false]
+      split
+      · intro m' o' hmo
+        rcases List.mem_append.mp hmo with h1 | h1
+        · exact (h m' o' h1).mono rfl rfl (fun _ h => h)
+        · simp only [List.mem_singleton, Prod.mk.injEq] at h1
+          obtain ⟨rfl, rfl⟩ := h1
+          have hb : ∀ n, (n = sTrigger ∨ n ∈ keys hm.events ∨ ∃ s ∈ hm.states, n = isName hm.attr s) →
+              Bnd (bindModel hm o) n := by
+            intro n hn
+            unfold bindModel
+            rw [hov]
+            refine fold_addModelToState_bnd hm.attr hm.states _ n ?_
+            rcases hn with h1 | h1 | h1
+            · subst h1
+              exact Or.inl (fold_addTrigger_bnd hm.events _ _
+                (Or.inl ((Bnd.checkedAssign_self o sTrigger .triggerFn (by simp)).checkedAssign_other _ _)))
+            · exact Or.inl (fold_addTrigger_bnd hm.events _ _ (Or.inr h1))
+            · exact Or.inr h1
+          have hne : ∀ n, n ≠ hm.attr → Bnd (bindModel hm o) n →
+              Bnd ((bindModel hm o).setattr hm.attr (.value i)) n := fun n hn hb => hb.setattr_ne _ _ hn
+          refine ⟨⟨o, hp, ?_⟩, ?_, ?_, ?_⟩
+          · refine KeptFrom.setState ?_ _
+            unfold bindModel
+            rw [hov]
+            exact fold_addModelToState_kept _ _ (fold_addTrigger_kept _ _
+              (((KeptFrom.refl _ o).checkedAssign _ _).checkedAssign _ _))
+          · intro s hs
+            exact hne _ (isName_ne_attr _ _) (hb _ (Or.inr (Or.inr ⟨s, hs, rfl⟩)))
+          · intro e he
+            by_cases hea : e = hm.attr
+            · subst hea
+              show ((bindModel hm o).setattr hm.attr (.value i)).unbound hm.attr = false
+              simp [Obj.unbound, getattr_setattr_self]
+            · exact hne _ hea (hb _ (Or.inr (Or.inl he)))
+          · by_cases hta : sTrigger = hm.attr
+            · show ((bindModel hm o).setattr hm.attr (.value i)).unbound sTrigger = false
+              rw [hta]; simp [Obj.unbound, getattr_setattr_self]
+            · exact hne _ hta (hb _ (Or.inl rfl))
+      · exact h
+
+theorem delLoop_ok (e : Name) : ∀ (l : List (Nat × Obj)), (∀ m o, (m, o) ∈ l → (kget e o.inst).isSome) →
+    (delLoop e l).2 = true
+  | [], _ => rfl
+  | (m0, o0) :: r, h => by
+    unfold delLoop
+    have h0 : (kget e o0.inst).isSome := h m0 o0 (List.mem_cons_self ..)
+    simp only [Obj.delattr, h0, if_true]
+    exact delLoop_ok e r (fun m o hmo => h m o (List.mem_cons_of_mem _ hmo))
+
+/-- name hygiene of a removal + the exclusion of finding F-C11-remove-transition-delattr:
+the removed event is not named like an `is_` helper or `trigger`, and no model defined that name itself -/
+structure RemOK (P : Nat → Obj → Prop) (e : Name) : Prop where
+  notIs : ¬ sIs <+: e
+  notTrigger : e ≠ sTrigger
+  undefinedOnModels : ∀ m o0, P m o0 → o0.getattr e = none
+
+theorem getattr_none_split {o : Obj} {n : Name} (h : o.getattr n = none) : kget n o.inst = none ∧ kget n o.cls = none := by
+  unfold Obj.getattr at h
+  cases hi : kget n o.inst with
+  | some b => simp [hi] at h
+  | none => simp [hi] at h; exact ⟨rfl, h⟩
+
+theorem isName_prefix (attr s : Name) : sIs <+: isName attr s := List.prefix_append _ _
+
+theorem FInv.removeTransition {P : Nat → Obj → Prop} {hm : HM} (h : FInv P hm) (e : Name) (src dst : Option Name)
+    (hr : RemOK P e) : FInv P (removeTransition hm e src dst).1 ∧
+      ((removeTransition hm e src dst).2 = some .attributeError → False) := by
+  unfold Helpers.removeTransition
+  cases hk : kget e hm.events with
+  | none => exact ⟨h, by intro h; cases h⟩
+  | some ts =>
+    have hmem : e ∈ keys hm.events := mem_keys_of_kget hk
+    simp only
+    cases hf : ts.filter (keepTr src dst) with
+    | cons t keep =>
+      simp only
+      refine ⟨?_, by intro h; cases h⟩
+      intro m o hmo
+      exact (h m o hmo).mono rfl rfl (by
+        intro e' he'; have : e' ∈ keys (kset e (t :: keep) hm.events) := he'
+        rwa [keys_kset_of_mem _ hmem] at this)
+    | nil =>
+      simp only
+      obtain ⟨ik, ia, ib⟩ := delLoop_spec e hm.objs
+      have hall : ∀ m o, (m, o) ∈ hm.objs → (kget e o.inst).isSome := by
+        intro m o hmo
+        have f := h m o hmo
+        obtain ⟨o0, hp, hkf⟩ := f.orig
+        have hc : kget e o.cls = none := by rw [hkf.cls]; exact (getattr_none_split (hr.undefinedOnModels m o0 hp)).2
+        have hb := f.evB e hmem
+        unfold Bnd Obj.unbound Obj.getattr at hb
+        cases hi : kget e o.inst with
+        | some b => rfl
+        | none => simp [hi, hc] at hb
+      have hok := delLoop_ok e hm.objs hall
+      simp only [hok, if_true]
+      refine ⟨?_, by intro h; cases h⟩
+      intro m o' hmo
+      obtain ⟨o, ho, rfl, _⟩ := ib hok m o' hmo
+      have f := h m o ho
+      refine ⟨?_, ?_, ?_, ?_⟩
+      · obtain ⟨o0, hp, hkf⟩ := f.orig
+        exact ⟨o0, hp, hkf.dropInst e (hr.undefinedOnModels m o0 hp)⟩
+      · intro s hs
+        exact (f.isB s hs).dropInst_ne e (by intro he; exact hr.notIs (he ▸ isName_prefix _ _))
+      · intro e' he'
+        have := (mem_keys_kdel e e' hm.events).mp he'
+        exact (f.evB e' this.1).dropInst_ne e this.2
+      · exact f.trB.dropInst_ne e (Ne.symm hr.notTrigger)
+
+theorem FInv.fire {P : Nat → Obj → Prop} {hm : HM} (h : FInv P hm) (m : Nat) (e : Name) :
+    FInv P (fire hm m e).1 := by
+  unfold Helpers.fire
+  split
+  · exact h
+  · rename_i o hko
+    split
+    · exact h
+    · split
+      · exact h
+      · split
+        · exact h
+        · split
+          · exact h
+          · split
+            · exact h
+            · split
+              · exact h
+              · rename_i d _
+                split
+                · have hmo : (m, o) ∈ hm.objs := kget_mem _ _ _ hko
+                  intro m' o' hmo'
+                  rcases mem_kset hmo' with ⟨rfl, rfl⟩ | h'
+                  · have f := h m' o hmo
+                    refine ⟨?_, ?_, ?_, ?_⟩
+                    · obtain ⟨o0, hp, hkf⟩ := f.orig
+                      exact ⟨o0, hp, hkf.setState _⟩
+                    · intro s hs; exact (f.isB s hs).setattr_ne _ _ (isName_ne_attr _ _)
+                    · intro e' he'
+                      by_cases hea : e' = hm.attr
+                      · subst hea
+                        show (o.setattr hm.attr (.value d)).unbound hm.attr = false
+                        simp [Obj.unbound, getattr_setattr_self]
+                      · exact (f.evB e' he').setattr_ne _ _ hea
+                    · by_cases hta : sTrigger = hm.attr
+                      · show (o.setattr hm.attr (.value d)).unbound sTrigger = false
+                        rw [hta]; simp [Obj.unbound, getattr_setattr_self]
+                      · exact f.trB.setattr_ne _ _ hta
+                  · exact (h m' o' h').mono rfl rfl (fun _ h => h)
+                · exact h
+
+/-- hypotheses on a history for machines without `model_override` -/
+structure FOps (ops all : List Op) : Prop where
+  rem : ∀ e src dst, Op.removeTransition e src dst ∈ ops → RemOK (fun m o => Op.addModel m o ∈ all) e
+  sub : ∀ op ∈ ops, op ∈ all
+
+theorem FInv.run (all : List Op) : ∀ (ops : List Op) (hm : HM), hm.override = false →
+    FInv (fun m o => Op.addModel m o ∈ all) hm → FOps ops all →
+    FInv (fun m o => Op.addModel m o ∈ all) (run hm ops)
+  | [], _, _, h, _ => h
+  | op :: r, hm, hov, h, hf => by
+    unfold Helpers.run
+    have hc := applyOp_consts hm op
+    refine FInv.run all r _ (hc.override.trans hov) ?_ ⟨fun e s d hm' => hf.rem e s d (List.mem_cons_of_mem _ hm'),
+      fun op' h' => hf.sub op' (List.mem_cons_of_mem _ h')⟩
+    cases op with
+    | setInitial s => exact h.setInitial hov s
+    | addState s => exact h.addState hov s
+    | addTransition e src dst pass => exact h.addTransition hov e src dst pass
+    | removeTransition e src dst => exact (h.removeTransition e src dst (hf.rem e src dst (List.mem_cons_self ..))).1
+    | addModel m o => exact h.addModel hov m o (hf.sub _ (List.mem_cons_self ..))
+    | fire m e => exact h.fire m e
+
 end Helpers
 end TM
